@@ -187,7 +187,7 @@ class WsgiFE:
 # raw HTTP/1.1 client
 
 
-def raw_http(addr, method, target, headers=(), body=None, timeout=30.0):
+def raw_http(addr, method, target, headers=(), body=None, timeout=30.0, half_close=False):
     """One request on a fresh connection. addr = ('unix', path) | ('tcp', host, port)."""
     if addr[0] == "unix":
         s = socket.socket(socket.AF_UNIX, socket.SOCK_STREAM)
@@ -208,6 +208,14 @@ def raw_http(addr, method, target, headers=(), body=None, timeout=30.0):
         lines.append("Connection: close")
         data = ("\r\n".join(lines) + "\r\n\r\n").encode("latin-1") + (body or b"")
         s.sendall(data)
+        if half_close:
+            # wsgiref hands the raw socket to the application as wsgi.input and
+            # xandikos reads it without a length: signal end-of-input the way a
+            # production WSGI server bounds the stream at Content-Length
+            try:
+                s.shutdown(socket.SHUT_WR)
+            except OSError:
+                pass
         buf = bytearray()
         while True:
             try:
@@ -456,4 +464,4 @@ class WsgiHostFE(_Proc):
         self.kill()
 
     def request(self, method, target, headers=(), body=None):
-        return raw_http(self.addr, method, target, headers, body)
+        return raw_http(self.addr, method, target, headers, body, half_close=True)
